@@ -297,10 +297,9 @@ def impl_adc(ver_code, nc):
     ss, adc = neuropixel.adc_shifts(version=ver, nc=nc)
     ncyc = 16 if ver_code in (2, 24) else 13
     nums = ss * ncyc
-    assert np.all(np.abs(nums - np.round(nums)) < 1e-9)
     out = [ncyc, len(ss)]
-    for a, b in zip(np.round(nums), adc):
-        out += [int(a), int(b)]
+    for a, b in zip(nums, adc):
+        out += [int(round(a)) if abs(a - round(a)) < 1e-9 else -7777, int(b)]      # -7777: not a multiple of 1/n_cycles
     return out
 
 
@@ -414,7 +413,17 @@ def stripe_waveform(kind, fs, lfp, ns, seed):
     raise ValueError(kind)
 
 
-def measure(ctx):
+def model_delays(ex):
+    """physical ADC sampling delays (in samples) of the 384 channels, from the MODEL's table
+    (theorem C05_adc_delay_table), not from the implementation under test"""
+    out = {}
+    for gen, ver in (("NP1", 1), ("NP2", 2), ("NP2.4", 2), ("NPultra", 0)):
+        m = ex.run_many([[7, ver, 384]], nproc=1)[0]
+        out[gen] = np.array(m[2::2][:384], dtype=float) / m[0]
+    return out
+
+
+def measure(ctx, delays):
     v = V()
     res = {"stripe_attenuation_db": {}, "stripe_attenuation_whole_window_db": {}, "stripe_with_noise_db": {}, "spike_kept": {}}
     worst_att = 1e9
@@ -443,7 +452,7 @@ def measure(ctx):
                 if gen in ("NPultra", "NP2.4") and wk == "periodic":
                     continue
                 u = stripe_waveform(wk, fs, lfp, ns, seed)
-                st = np.stack([u(t + s / fs) for s in h["sample_shift"]]) * amp
+                st = np.stack([u(t + s / fs) for s in delays[gen]]) * amp
                 ref = temporal_ref(fs, lfp, st)
                 key = "%s/%s/%s/%s%g" % (gen, "lfp" if lfp else "ap", sname, wk, amp)
                 try:
@@ -496,7 +505,7 @@ def measure(ctx):
             for c in depths:
                 sp = np.zeros((384, ns))
                 for dc, a in ((-1, 0.6), (0, 1.0), (1, 0.6)):
-                    sp[c + dc] = a * 100e-6 * spike(t + h["sample_shift"][c + dc] / fs, tsp)
+                    sp[c + dc] = a * 100e-6 * spike(t + delays[gen][c + dc] / fs, tsp)
                 d = (run(noise + sp) - y0)[c]
                 kept.append(float(d[ipk] / ref[ipk]))
             key = "%s/%s" % (gen, sname)
@@ -799,7 +808,8 @@ def run(ctx):
             nontrivial.add(json.dumps(desc, sort_keys=True))
         scale = float(np.max(np.abs(pre)))
         if outside and np.max(np.abs(y[outside] - pre[outside])) > TOL * scale:
-            ctx.fail("channels labelled outside the brain were modified by the spatial filter", desc,
+            ctx.fail("channels labelled outside the brain are not returned as produced by the temporal filter, ADC "
+                     "re-alignment and interpolation steps (modified by the spatial filter?)", desc,
                      {"kind": "destripe_labels"})
         elif np.max(np.abs(y - exp)) > TOL * scale:
             ctx.fail("destripe output differs from: temporal filter, ADC re-alignment, interpolation, then the spatial "
@@ -831,7 +841,7 @@ def run(ctx):
 
     # ---- measurements (quantitative clauses)
     try:
-        measure(ctx)
+        measure(ctx, model_delays(ex))
     except Exception as e:
         ctx.fail("measurement run raised %r" % (e,), {"kind": "measure"}, {"kind": "exception"})
 
@@ -913,7 +923,7 @@ def replay(ctx, data):
         return 1 if max(d_out, d_all) > TOL * scale else 0
     if kind == "measure":
         n0 = len(ctx.oracle_failures)
-        measure(ctx)
+        measure(ctx, model_delays(ex))
         print(json.dumps(ctx.measurements, indent=1)[:4000])
         return 1 if len(ctx.oracle_failures) > n0 else 0
     print(json.dumps(data, indent=1)[:3000])
